@@ -309,6 +309,43 @@ class C20:
                       "delete and its book-keeping" % (name, len(viol), viol[0][2] if viol else ""), witness=viol[0][3] if viol else None)
 
 
+    def s8_s9(self):
+        rep, ctx, p = self.rep, self.ctx, self.ctx.prog
+        rep.rule("C20.S8", "merged listing: _get_smartinfo returns None (hide the name) only when there is no local info - a file that exists locally is always reported", expect_min=2)
+        f = self.cs.methods["_get_smartinfo"]
+        li = f.params()[2]
+        g = ctx.cfg(f)
+        rets = [n for n in g.nodes if n.kind == "stmt" and isinstance(n.ast, ast.Return) and (n.ast.value is None or (isinstance(n.ast.value, ast.Constant) and n.ast.value.value is None))]
+        if not rets:
+            raise AnalysisError("_get_smartinfo: no `return None` found")
+        for r in rets:
+            rep.check("C20.S8", "_get_smartinfo|" + stmt_key(f, r.ast) + "@%d" % rets.index(r), ctx.line(f, r.ast), fact_in(ctx.facts(f).facts(r), li, False), "hidden only without local info",
+                      "_get_smartinfo can return None although local info is present: an existing local file disappears from smart_listdir / smart_info while its remote side is trashed or being renamed")
+        rep.rule("C20.S9", "un-request aborts when the push fails: a provider error inside SmartCloudSync._sync_one_entry propagates to the caller (every handler path "
+                 "re-raises) - or the caller tests the result before it deletes the local copy", expect_min=1)
+        so = p.func("SmartCloudSync._sync_one_entry")
+        gs = ctx.cfg(so)
+        hs = [h for t in ctx.own_nodes(so) if isinstance(t, ast.Try) for h in t.handlers]
+        if not hs:
+            raise AnalysisError("SmartCloudSync._sync_one_entry has no exception handler any more")
+        swallowed = None
+        for h in hs:
+            starts = [x.id for x in gs.nodes if x.kind == "stmt" and h.body and x.ast is h.body[0]]
+            if not starts:
+                continue
+            pth = gs.reach(starts, lambda n: n is gs.exit, follow=NORMAL, include_src=True)
+            if pth is not None:
+                swallowed = (h, pth)
+        used = False
+        un = p.func("SmartCloudSync._smart_unsync_ent")
+        for c_ in ctx.calls(un, "_sync_one_entry"):
+            par = [n for n in ctx.own_nodes(un) if isinstance(n, (ast.If, ast.Assign)) and any(x is c_ for x in ast.walk(n))]
+            used = used or any(isinstance(n, ast.If) and any(x is c_ for x in ast.walk(n.test)) for n in par)
+        rep.check("C20.S9", "SmartCloudSync._sync_one_entry|failure-propagates", so, swallowed is None or used, "a failed push raises out of the step",
+                  "a provider error during the push of an un-request is swallowed (handler returns normally) and the caller ignores the result: the local copy "
+                  "holding the only copy of the edit is deleted afterwards", witness=describe_path(swallowed[1]) if swallowed else None)
+
+
 def run(ctx: Ctx, rep: Report, tier: str):
     c = C20(ctx, rep)
     c.s1()
@@ -317,3 +354,4 @@ def run(ctx: Ctx, rep: Report, tier: str):
     c.s4()
     c.s5_s6()
     c.s7()
+    c.s8_s9()
